@@ -20,6 +20,7 @@ from .. import refmodel as R
 from ..verdict import Result
 
 LEVEL = "exploration"
+REPS = {"quick": 1, "thorough": 4}
 RULE = ("exhaustive: all 16 663 subsets of <= 5 of the 19 recognised names x {vector.obj, 6 object classes, vector.array dict, "
         "vector.array dtype=, vector.zip, vector.Array}; values sampled (int, float, numpy.float32/64, numpy.int32/64) + hostile "
         "values (bool, str, None, complex) on the valid sets; every call made twice with shared argument objects. A cell is "
